@@ -1315,6 +1315,26 @@ def h_create_manifest(kind: str):
     return harness
 
 
+def avro_schema_fields(h: H, const_name: str):
+    """field names of an Avro record schema constant of /repo/src/datashard/avro_schemas.py (read from the current source):
+    -> (top-level names, required top-level names, {nested record field: (names, required)})"""
+    import ast as _ast
+    mi = h.repo.modules["avro_schemas"]
+    sch = _ast.literal_eval(mi.constants[const_name])
+
+    def names(rec):
+        al = [f["name"] for f in rec["fields"]]
+        req = [f["name"] for f in rec["fields"] if "default" not in f]
+        return al, req
+    top, req = names(sch)
+    nested = {}
+    for f in sch["fields"]:
+        t = f["type"]
+        if isinstance(t, dict) and t.get("type") == "record":
+            nested[f["name"]] = names(t)
+    return top, req, nested
+
+
 # =================================================================================== CARRY (C15): manifest entries
 def _sym_datafile(I, tag):
     c = I.ctx
@@ -1361,6 +1381,15 @@ def h_manifest_entries(h: H):
         r = adds[0].d
         eqv = lambda a, b: pyops.bool_z(pyops.py_eq(a, b))
         res.append(("CARRY:entry-names-the-file's-own-path", z3.BoolVal(isinstance(r.get("data_file"), PDict) and r["data_file"].d.get("file_path") is df.fields["file_path"])))
+        # T-codec (fastavro): a record key that is not a field of the writer schema is silently DROPPED; a schema field without
+        # default that is missing from the record raises.  So: keys written == fields the schema knows (incl. the nested record)
+        top, req, nested = avro_schema_fields(h, "MANIFEST_ENTRY_SCHEMA")
+        res.append(("CODEC-KEYS:every-key-of-a-manifest-entry-is-a-field-of-the-Avro-schema(nothing-silently-dropped)",
+                    z3.BoolVal(set(r) <= set(top) and isinstance(r.get("data_file"), PDict) and set(r["data_file"].d) <= set(nested["data_file"][0]))))
+        res.append(("CODEC-KEYS:every-required-schema-field-is-written",
+                    z3.BoolVal(set(req) <= set(r) and isinstance(r.get("data_file"), PDict) and set(nested["data_file"][1]) <= set(r["data_file"].d))))
+        res.append(("CODEC-KEYS:the-file's-checksum-is-written-into-its-entry",
+                    z3.BoolVal(isinstance(r.get("data_file"), PDict) and r["data_file"].d.get("checksum") is df.fields["checksum"])))
         res.append(("CARRY:both-sequence-number-columns-agree", eqv(r.get("sequence_number"), r.get("file_sequence_number"))))
         if str(df.label).startswith("carried"):
             res.append(("CARRY:carried-file-has-status-EXISTING", z3.BoolVal(status == 0 and r.get("status") == 0)))
@@ -1426,6 +1455,11 @@ def h_manifest_read_entries(h: H):
         df, rec = adds[0], cur["rec"]
         eqv = lambda a, b: pyops.bool_z(pyops.py_eq(a, b))
         res.append(("CARRY:read:file-path-from-its-entry", z3.BoolVal(df.fields.get("file_path") is rec["data_file"].d["file_path"])))
+        top, req, nested = avro_schema_fields(h, "MANIFEST_ENTRY_SCHEMA")
+        res.append(("CODEC-KEYS:the-reader-finds-every-schema-field-it-needs(record-built-from-exactly-the-schema's-fields)",
+                    z3.BoolVal(set(rec) == set(top) and set(rec["data_file"].d) == set(nested["data_file"][0]))))
+        res.append(("CODEC-KEYS:the-entry's-checksum-reaches-the-DataFile(checksum-verification-stays-on)",
+                    z3.BoolVal(df.fields.get("checksum") is rec["data_file"].d["checksum"])))
         res.append(("CARRY:read:adding-snapshot-from-its-entry", eqv(df.fields.get("added_snapshot_id"), rec["snapshot_id"])))
         fs, sq = rec["file_sequence_number"], rec["sequence_number"]
         got = df.fields.get("sequence_number")
@@ -1451,3 +1485,54 @@ def h_manifest_read_entries(h: H):
     out, val = h.run(f"{FMOD}:FileManager.read_manifest_file", [fm, p])
     if out == "ok":
         h.ensure("CARRY:read:returns-the-accumulated-files", val is files)
+
+
+def h_manifest_list_entries(h: H):
+    """LIST-ENTRIES: create_manifest_list_file writes one record per manifest it was given (every manifest, the manifest's own path
+    and counters), with exactly the fields of the Avro schema; read_manifest_list_file maps a record back to the same path."""
+    from pyvc import acc as _acc
+    c = h.ctx
+    st = Store(h)
+    st.install(h.reg)
+    misc.install_clock(h.reg, c)
+    misc.install_uuid(h.reg, c)
+    _acc.install(h.reg)
+    fm = h.obj("FileManager", storage=st.obj, manifests_path="metadata/manifests")
+    h.reg.modfuncs["fastavro.writer"] = lambda I, a, k: None
+    h.reg.modfuncs["io.BytesIO"] = lambda I, a, k: TheoryObj("bytesio")
+    h.reg.theory_methods[("bytesio", "getvalue")] = lambda I, o, a, k: SBytes(I.ctx.fresh_str("avro_bytes"))
+    attrs = ["manifest_path", "manifest_length", "partition_spec_id", "sequence_number", "min_sequence_number", "added_snapshot_id",
+             "added_data_files_count", "existing_data_files_count", "deleted_data_files_count"]
+
+    def mk(I):
+        cc = I.ctx
+        f = {a: SInt(cc.fresh_int(a)) for a in attrs}
+        f["manifest_path"] = SStr(cc.fresh_str("manifest_path"))
+        f["content"] = EnumVal("ManifestContent", "DATA", 0)
+        return SObj("ManifestFile", f, label="some-manifest")
+    manifests = TheoryObj("symiter", fields={"mk": mk})
+    records = _acc.new_acc("records")
+
+    def inv(I, env, it):
+        if not it.get("after_body"):
+            return []
+        mf = it["elem"]
+        adds = records.fields["added"]
+        res = [("LIST-ENTRIES:exactly-one-record-per-manifest", z3.BoolVal(len(adds) == 1 and isinstance(adds[0], PDict)))]
+        if len(adds) != 1 or not isinstance(adds[0], PDict):
+            return res
+        r = adds[0].d
+        top, req, _n = avro_schema_fields(h, "MANIFEST_FILE_SCHEMA")
+        res.append(("CODEC-KEYS:record-keys-are-exactly-the-Avro-schema's-fields", z3.BoolVal(set(r) <= set(top) and set(req) <= set(r))))
+        res.append(("LIST-ENTRIES:record-carries-the-manifest's-own-path-and-counters", z3.BoolVal(all(r.get(a) is mf.fields[a] for a in attrs))))
+        return res
+
+    def havoc(I, env, it):
+        env.vars["records"] = records
+        _acc.reset(records)
+    h.reg.loops[f"{FMOD}:FileManager.create_manifest_list_file"] = {
+        "*": LoopSpec(invariant=inv, havoc=havoc, name="manifests", skip=["records", "mf", "content_val", "record"],
+                      on_break=lambda I, e, it: h.fail("LIST-ENTRIES:every-manifest-is-visited(no-early-exit)"))}
+    sid = SInt(c.fresh_int("snapshot_id"))
+    out, val = h.run(f"{FMOD}:FileManager.create_manifest_list_file", [fm, manifests, sid], {"pre_write_hook": None})
+    h.ensure("LIST-ENTRIES:create_manifest_list_file-does-not-raise-on-well-typed-manifests", out == "ok", detail=repr(val) if out != "ok" else "")
